@@ -15,7 +15,7 @@ git -C $WT checkout -- .
 # our checks against the change in /repo
 git -C /repo status --short | grep -v '^??' && { echo "/repo dirty"; exit 2; }
 git -C /repo apply $SD/patch.diff || { echo "patch does not apply to /repo"; exit 2; }
-for c in $CHECKS; do echo "== ./check $c quick"; (cd /verif && timeout 3000 ./check $c quick 2>&1 | tail -4); done
+for c in $CHECKS; do echo "== ./check $c quick"; (cd "$(dirname "$(readlink -f "$0")")/.." && timeout 3000 ./check $c quick 2>&1 | tail -4); done
 git -C /repo checkout -- .
 git -C /repo status --short | grep -v '^??'
 echo "== done"
